@@ -3,7 +3,7 @@
 From Coq Require Import ZArith List Bool NArith Lia.
 Import ListNotations.
 Require Import PV.Core.Obj PV.Core.Val PV.Core.Cls PV.Core.Member PV.Core.CanAssignK PV.Core.CanAssign PV.Core.C04Run.
-Require Import PV.Core.C03Run PV.Proofs.C04Laws PV.Gen.ClassTable.
+Require Import PV.Core.C03Run PV.Proofs.C04Laws PV.Proofs.C04Mono PV.Proofs.C04Refl PV.Gen.ClassTable.
 
 (* soundness for membership, at full strength (Any-free, no guard) *)
 Definition sound_full_statement : Prop :=
@@ -34,11 +34,12 @@ Definition sound_guarded_statement : Prop :=
   has_newtype A = false -> has_unsafe_literal B = false ->
   can_assign table false A B = true -> member table B o = true -> member table A o = true.
 
-Definition exclude_any_monotone_statement : Prop :=
-  forall ct n A B, can_assign_f ct n true A B = true -> can_assign_f ct n false A B = true.
-
-Definition reflexive_statement : Prop :=
-  forall e A, has_variadic A = false -> can_assign table e A A = true.
+(* the reflexive fragment is inhabited by non-trivial values on the generated table *)
+Example refl_ok_example :
+  refl_ok table (VUnion [VNode (TGeneric c_dict) [VLeaf (LTyped c_str false); VNode (TSeq c_tuple [false; false]) [VUnion [VLeaf (LTyped c_int false); VLeaf (LKnown ONone)]; VLeaf (LTyped c_int false); VLeaf (LKnown ONone)]];
+                         VNode (TAnnot [1%N]) [VNode (TSubclass false) [VLeaf (LTyped c_float false)]];
+                         VLeaf (LNewType 1 c_int); VLeaf (LAny 2)]) = true.
+Proof. vm_compute. reflexivity. Qed.
 
 (* ---- obligations on the generated table: the nominal core is a preorder that is
    sound for membership, object is top ---- *)
